@@ -41,9 +41,15 @@
   __CPROVER_requires(IPRE && acc_family(name) >= 0 && is_sx40(value)) ST_POST(spec_nosat_write(OLD, acc_family(name), value))
 #define CONTRACT_Interpreter_AlmGeneric \
   __CPROVER_requires(IPRE && alm_in_c03(op) && OPV(b) < 2) ST_POST(spec_alm(OLD, op, a, ax_fam(b)))
+#ifdef MODA_C04      /* the shift/rotate members of the family (C04 instance of the same function) */
+#define CONTRACT_Interpreter_Moda \
+  __CPROVER_requires(IPRE && moda_in_c04(op) && is_whole_acc(a) && cond.base_0.storage < 16) \
+  ST_POST(spec_cond(OLD, (CondValue)cond.base_0.storage) ? spec_moda_shift(OLD, op, acc_family(a)) : OLD)
+#else
 #define CONTRACT_Interpreter_Moda \
   __CPROVER_requires(IPRE && moda_in_c03(op) && is_whole_acc(a) && (op != ModaOp_Copy || acc_family(a) < 2) && cond.base_0.storage < 16) \
   ST_POST(spec_cond(OLD, (CondValue)cond.base_0.storage) ? spec_moda(OLD, op, acc_family(a)) : OLD)
+#endif
 
 /* ---- instruction forms with register / immediate operands (memory-operand forms go through the address unit: C10) */
 #define ALMOP(op) ((AlmOp)OPV1(op))
